@@ -65,6 +65,12 @@ theorem stepRun_getElem {σ β : Type} (step : σ → α → σ × β) (s : σ) 
       simp only [List.getElem?_cons_succ] at hx
       simp [stepRun, ih _ k hx]
 
+theorem stepRun_state_foldl {σ β : Type} (step : σ → α → σ × β) (s : σ) (xs : List α) :
+    (stepRun step s xs).1 = xs.foldl (fun s x => (step s x).1) s := by
+  induction xs generalizing s with
+  | nil => rfl
+  | cons x xs ih => simp [stepRun, ih]
+
 theorem stepRun_append {σ β : Type} (step : σ → α → σ × β) (s : σ) (xs ys : List α) :
     (stepRun step s (xs ++ ys)).1 = (stepRun step (stepRun step s xs).1 ys).1 := by
   induction xs generalizing s with
